@@ -237,6 +237,20 @@ func rangeValues(n int, p *big.Int) (vals []*big.Int, names []string) {
 
 func inRange(v *big.Int, n int) bool { return v.BitLen() <= n }
 
+// fracValues: field elements k/2^s mod p.  They are full-width integers (out of every range below
+// the field size), but k/2^s * 2^s is SMALL: exactly the values that pass when a width check is done
+// on a scaled copy of the value ("v << shift fits the limb") instead of on the value itself.
+func fracValues(p *big.Int) (vals []*big.Int, names []string) {
+	for _, s := range []uint{1, 2, 3, 4, 5, 6, 7, 8, 12, 16} {
+		inv := new(big.Int).ModInverse(pow2(int(s)), p)
+		for _, k := range []int64{1, 5} {
+			vals = append(vals, mod(new(big.Int).Mul(big.NewInt(k), inv), p))
+			names = append(names, fmt.Sprintf("%d/2^%d", k, s))
+		}
+	}
+	return
+}
+
 // rcCircuit checks s[i] against widths[i] with the commitment range checker.
 func rcCircuit(widths []int, strategy *string) *circ.C {
 	return circ.New(0, len(widths), func(api frontend.API, p, s []frontend.Variable) error {
